@@ -73,6 +73,12 @@ class RecModel(torch.nn.Module):
 		self.log = []
 
 	def forward(self, X, *args):
+		lim = getattr(self, "oom_limit", None)
+		if lim is not None and X.shape[0] > lim:
+			# a batch that does not fit: what predict may do is re-raise -
+			# or anything that still returns the exact concatenation
+			raise torch.cuda.OutOfMemoryError("simulated: %d rows > %d" % (
+				X.shape[0], lim))
 		self.log.append({"x": ids_of_X(X),
 			"args": [ids_of_arg(a, j) for j, a in enumerate(args)],
 			"training": self.training, "grad": torch.is_grad_enabled(),
@@ -88,6 +94,9 @@ class RecModel(torch.nn.Module):
 			return y, (y * 2)[:, :2, None].expand(-1, -1, 2)
 		if self.kind == "list":
 			return [y[:, 0], y + 1, y[:, 1:]]
+		if self.kind == "view":
+			# outputs that are views of the (possibly cast) input batch
+			return (y, X, X[:, :, 1:3], X.permute(0, 2, 1))
 		if self.kind == "mixed":
 			# outputs of several dtypes: exact concatenation keeps each
 			return (y.to(torch.float32), (y * 1048577).to(torch.int64),
@@ -215,6 +224,8 @@ def run_case(cls, params, rec):
 		return
 
 	model = RecModel(kind, with_param=params.get("with_param", True))
+	if params.get("oom_limit"):
+		model.oom_limit = params["oom_limit"]
 	model.train()
 	mon = gen.Immutable(X=X, **{"arg%d" % j: a for j, a in enumerate(args)})
 	argv = None if k == 0 else (tuple(args) if params.get("args_tuple", True)
@@ -234,9 +245,16 @@ def run_case(cls, params, rec):
 			rec.held(cls, params, nontrivial=True)
 		return
 	if st == "raise":
+		if params.get("oom_limit") and isinstance(y,
+			torch.cuda.OutOfMemoryError):
+			rec.refusal(cls, params, "out-of-memory error propagated")
+			rec.count("oom_propagated")
+			return
 		rec.violation(cls, params, {"what": "predict raised",
 			"error": repr(y)[:300]}, mech="C03/raised")
 		return
+	if params.get("oom_limit"):
+		model.oom_limit = None
 	log = model.log
 	rec.count("forward_events", len(log))
 	seen = []
@@ -281,6 +299,7 @@ def plan(tier, seed):
 	for n in range(1, N + 1):
 		units.append({"cls": "grid", "n": n, "weight": n})
 	units.append({"cls": "mismatch", "N": N, "weight": 5})
+	units.append({"cls": "oom", "N": N, "weight": 5})
 	for n in range(1, N + 1, 3 if tier == "quick" else 1):
 		units.append({"cls": "bn", "n": n, "seed": seed, "weight": n})
 	return units
@@ -292,13 +311,24 @@ def run_unit(unit, rec):
 		c = 0
 		for b in range(1, n + 4):
 			for k in range(0, 4):
-				for kind in ("tensor", "tuple", "list", "mixed"):
+				for kind in ("tensor", "tuple", "list", "mixed", "view"):
 					c += 1
 					run_case("grid", {"n": n, "batch_size": b, "n_args": k,
 						"kind": kind, "xdtype": ("int8", "float32",
 						"float64")[c % 3], "with_param": c % 5 != 0,
 						"args_tuple": c % 2 == 0}, rec)
 		rec.mark_exhaustive("grid")
+	elif unit["cls"] == "oom":
+		c = 0
+		for n in range(2, unit["N"] + 1, 2):
+			for b in (n, n - 1, max(2, n // 2 + 1), n + 3):
+				for lim in (1, 2, max(1, b // 2), b - 1):
+					if lim >= min(b, n) or lim < 1:
+						continue
+					c += 1
+					run_case("oom-fault", {"n": n, "batch_size": b,
+						"n_args": 1 + c % 3, "kind": ("tensor", "tuple")[c %
+						2], "oom_limit": lim, "xdtype": "float64"}, rec)
 	elif unit["cls"] == "mismatch":
 		for n in range(1, unit["N"] + 1, 2):
 			for k in (1, 2, 3):
